@@ -58,7 +58,7 @@ Definition cur_msg (x0 : option N) (pre : list elem) : option N :=
 
 (* the callback of this bracket ends in a (caught) panic *)
 Definition brk_panics (c : modcfg) (b : brk) : bool :=
-  panics (m_handler c) (b_kind b) (cur_msg (kind_msg (b_kind b)) (m_stack c)).
+  panics (b_time b) (m_handler c) (b_kind b) (cur_msg (kind_msg (b_kind b)) (m_stack c)).
 
 (* a bracket is well formed for a module with configuration [c]: its callbacks have the
    shape above, all its entries belong to one module, and when the callback panics (caught)
@@ -209,7 +209,7 @@ Proof.
     assert (E1 : Ext m s s1 [mk m Handler (HHandle (pay x els) now)]) by (apply Ext_say_emits; reflexivity).
     assert (EP : forall b, Ext m s (panic_if b m s1) [mk m Handler (HHandle (pay x els) now)])
       by (intros b; eapply Ext_step; [exact E1|apply Ext_panic_if|reflexivity]).
-    destruct (h_extra h) as [|d|trig r|site trig]; try apply EP.
+    destruct (h_extra h) as [|d|trig r pan|site trig since]; try apply EP.
     destruct (pay x els =? trig); [|exact E1].
     destruct E1 as (suf & Hl & Hk & Hf).
     exists (suf ++ [mk m Handler (HShut r)]). cbn [lg say]. rewrite Hl, app_assoc. split; [reflexivity|].
@@ -237,18 +237,19 @@ Qed.
 
 (* a panicking callback: its part of the log ends with the panic record *)
 Lemma handler_part_panic now m h k msg s :
-  panics h k msg = true -> exists suf, lg (handler_part now m h k msg s) = lg s ++ suf ++ [mk m Handler HPanic].
+  panics now h k msg = true -> exists suf, lg (handler_part now m h k msg s) = lg s ++ suf ++ [mk m Handler HPanic].
 Proof.
   intros Hp.
   assert (G : forall s1 suf, lg s1 = lg s ++ suf -> lg (panic_if true m s1) = lg s ++ suf ++ [mk m Handler HPanic])
     by (intros s1 suf H1; cbn [panic_if lg say]; rewrite H1, app_assoc; reflexivity).
   destruct k as [x| |st|]; cbn [handler_part].
-  - unfold panics in Hp. destruct (h_extra h) as [|d|trig r|site trig] eqn:Hx; try discriminate.
-    destruct msg as [y|]; [|rewrite andb_false_r in Hp; discriminate].
-    assert (Hp' : panics h (KMsg x) (Some y) = true) by (unfold panics; rewrite Hx; exact Hp). rewrite Hp'.
+  - unfold panics in Hp. destruct (h_extra h) as [|d|trig r [[st0 since0]|]|site trig since] eqn:Hx; try discriminate.
+    destruct msg as [y|]; [|rewrite !andb_false_r in Hp; discriminate].
+    assert (Hp' : panics now h (KMsg x) (Some y) = true) by (unfold panics; rewrite Hx; exact Hp). rewrite Hp'.
     destruct (Ext_say_emits now m Handler (HHandle y now) (h_msg h) s eq_refl) as (suf & Hl & _ & _).
     exists suf. apply G, Hl.
-  - unfold panics in Hp. destruct (h_extra h); discriminate.
+  - unfold panics in Hp. destruct (h_extra h) as [|d|trig r [[st0 since0]|]|site trig since]; try discriminate.
+    rewrite andb_false_r in Hp. discriminate.
   - rewrite Hp. destruct (Ext_say_emits now m Handler (HSimStart st now) (h_start h) s eq_refl) as (suf & Hl & _ & _).
     exists suf. apply G, Hl.
   - rewrite Hp. destruct (Ext_say_emits now m Handler (HSimEnd now) (h_end h) s eq_refl) as (suf & Hl & _ & _).
@@ -256,7 +257,7 @@ Proof.
 Qed.
 
 Lemma bracket_panic_spec now m c woken k s :
-  panics (m_handler c) k (cur_msg (kind_msg k) (m_stack c)) = true ->
+  panics now (m_handler c) k (cur_msg (kind_msg k) (m_stack c)) = true ->
   exists pre post, lg (bracket now m c woken k s) = lg s ++ pre ++ mk m Handler HPanic :: post /\
                    calls post = task_shape m now woken ++ down_shape m (m_stack c).
 Proof.
